@@ -15,6 +15,8 @@ pub mod lmer_ops;
 #[cfg(kani)]
 pub mod dnastring_ops;
 #[cfg(kani)]
+pub mod slice_ops;
+#[cfg(kani)]
 pub mod stubs;
 #[cfg(kani)]
 pub mod gen;
